@@ -433,7 +433,7 @@ def _thaw(v):
 class C13Check(Check):
     prop = "C13"
     design_ref = "DESIGN.md section 4, C13"
-    runs = {"quick": 2000, "thorough": 200000}
+    runs = {"quick": 2000, "thorough": 1500000}
     rule = ("plans = (metric class - every class of the installed river.metrics that validate_loss_function accepts, cycled by "
             "run index -, 1-3 parties sharing the metric object, interleaved call schedule with mid-stream construction "
             "and observation); non-trivial = at least one loss evaluation judged; distinct = digest of the metric-seam log")
